@@ -272,9 +272,22 @@ func freshParts(fn *ssa.Function, v ssa.Value) (bool, string, []genUse) {
 			}
 		case *ssa.Slice:
 			walk(x.X)
-		case *ssa.MakeSlice, *ssa.Alloc:
-			/* A buffer made here: filled by a generator? */
+		case *ssa.MakeSlice, *ssa.Alloc, *ssa.TypeAssert:
+			/* A buffer made here (or a scratch array borrowed from a
+			pool): filled by a generator? */
 			n := int64(-1)
+			if ta, ok := x.(*ssa.TypeAssert); ok {
+				pt, isP := ta.AssertedType.Underlying().(*types.Pointer)
+				if !isP {
+					walk(ta.X)
+					return
+				}
+				at, isA := pt.Elem().Underlying().(*types.Array)
+				if !isA {
+					return
+				}
+				n = at.Len()
+			}
 			if ms, ok := x.(*ssa.MakeSlice); ok {
 				if k, ok := constInt(ms.Len); ok {
 					n = k
